@@ -57,6 +57,11 @@ CLAIMED = {
     "C24": ("CLONE (float~double and complex<float>~complex<double> wrapper specialisations issue identical LAPACK call traces modulo prefix/type) and REACHDEF (lwork and workspace derived from the -1 query to the same routine)",
             "Static decision of the clause the property names as the risk, 'LAPACK argument conversion and workspace sizing is separate code per type' (DESIGN section 3, C24): per wrapper family the specialisations agree argument-for-argument, "
             "and every real call's lwork/workspace come from the preceding workspace query. Everything in Factor*.cpp / Eigen.cpp (rank logic, residuals, orderings) is numerical and NOT decided."),
+    "C07": ("COMPLETE (virtual-set completeness per declared (mp,mv,ma)), AGREE (bodies selecting the kinematic input arrays == bodies selecting the force output arrays), LEVEL (count/segment/callee of one level per matrix builder), FRAME adjacency in the constraint equations",
+            "Static decision of the structural clauses of C07 (DESIGN section 3): every built-in constraint implements the whole error/derivative/force virtual set of each level it declares equations for; "
+            "at each level the velocity-level error routine takes kinematics of exactly the constrained bodies/mobilizers to which the matching addIn...Forces routine applies multiplier forces (necessary for G' = transpose of G); "
+            "each of the seven constraint-matrix builders uses the row count, row segment and per-constraint routine of one level; frame adjacency of every parseable rotation/transform product in the constraint equations. "
+            "That verr really is d/dt perr, the bias terms, signs and magnitudes are numerical and NOT decided."),
     "C08": ("GUARD rule over the natural loops of SimbodyMatterSubsystemRep that walk the constraint set (isConstraintDisabled on the loop variable before any use, or delegation to callees with a verified entry guard)",
             "Static decision of ONE clause of C08 only, 'disabled constraints have no effect on any result' (DESIGN section 3): every constraint loop that computes with a State skips disabled constraints or calls only self-guarding callees; "
             "six loops visit every declared constraint on purpose (tabled with reasons). Constraint satisfaction, the multiplier solve, Newton's law and constraint power are numerical and NOT decided."),
